@@ -361,6 +361,59 @@ pub fn continuity_flags(tier: &str) -> Vec<LonLat> {
     all
 }
 
+/// the latitude stage (geodetic <-> authalic) is a scalar function: a log-spaced scan away from the equator and from the
+/// poles (ratio 1.002 from 1e-9 rad = 6 mm) compares the slopes of consecutive intervals; a closed-form shortcut that
+/// switches at some latitude shows as a slope jump (the true function changes its slope by < 1e-5 per step).  Returns
+/// geodetic latitudes (degrees, both signs).  Like continuity_flags, the scan only chooses WHERE the properties are
+/// then evaluated.
+pub fn latitude_flags() -> Vec<f64> {
+    use a5::coordinate_systems::Radians;
+    use a5::projections::authalic::AuthalicProjection;
+    let au = AuthalicProjection;
+    let mut flags: Vec<f64> = vec![];
+    for dir in 0..2 {
+        for base in [0.0f64, std::f64::consts::FRAC_PI_2] {
+            let f = |x: f64| -> f64 {
+                let arg = if base == 0.0 { x } else { base - x };
+                let v = if dir == 0 { au.forward(Radians::new_unchecked(arg)).get() } else { au.inverse(Radians::new_unchecked(arg)).get() };
+                if base == 0.0 { v } else { base - v }
+            };
+            let mut x = 1e-9f64;
+            let (mut x0, mut f0) = (x, f(x));
+            let mut prev_slope = f64::NAN;
+            let mut last = 0.0;
+            while x < 0.8 {
+                x *= 1.002;
+                let fx = f(x);
+                let slope = (fx - f0) / (x - x0);
+                if prev_slope.is_finite() && (slope / prev_slope - 1.0).abs() > 1e-2 && x > last * 1.05 {
+                    // geodetic latitude of the anomaly (for the inverse direction the argument is authalic: convert)
+                    let arg = if base == 0.0 { x0 } else { base - x0 };
+                    let geo = if dir == 0 { arg } else { au.inverse(Radians::new_unchecked(arg)).get() };
+                    flags.push(geo.to_degrees());
+                    last = x;
+                }
+                prev_slope = slope; x0 = x; f0 = fx;
+            }
+        }
+    }
+    flags
+}
+
+/// points on flagged parallels (both hemispheres), a few longitudes, offsets of up to two cell sizes
+pub fn lat_flag_points(rng: &mut Rng, res: i32) -> Vec<LonLat> {
+    let mut v = vec![];
+    for l in latitude_flags().into_iter().take(12) {
+        for lon in [-170.0, -93.0, -40.5, 0.0, 15.3, 87.0, 120.7, 179.5] {
+            for k in [-2.0, -1.0, -0.5, 0.0, 0.5, 1.0, 2.0] {
+                let d = k * cell_size(res) / DEG * (0.8 + 0.4 * rng.f64());
+                for sgn in [1.0, -1.0] { let lat: f64 = sgn * l + d; if lat.abs() < 90.0 { v.push(LonLat::new(lon + rng.f64() * 1e-3, lat)); } }
+            }
+        }
+    }
+    v
+}
+
 pub fn gen_c04(tier: &str, seed: u64, out: &str) -> Value {
     let mut rng = Rng::new(seed ^ 0xC04);
     let mut t = Trace::new(out, "c04", 400);
@@ -466,6 +519,13 @@ pub fn gen_c03(tier: &str, seed: u64, out: &str) -> Value {
         for (i, p) in specials.iter().enumerate() {
             if tier != "thorough" && (i + res as usize) % 4 != 0 { continue; }
             if let Ok(id) = a5::lonlat_to_cell(*p, res) { t.emit(localmesh_event(id)); n_local += 1; }
+        }
+        t.cut();
+    }
+    for r in [26, 28, 29] {
+        for p in lat_flag_points(&mut rng, r) {
+            t.emit(owners_event(p, r, &mut rng)); n_own += 1;
+            if let Ok(id) = a5::lonlat_to_cell(p, r) { t.emit(localmesh_event(id)); n_local += 1; }
         }
         t.cut();
     }
@@ -614,6 +674,15 @@ pub fn gen_c11(tier: &str, seed: u64, out: &str, mc: Option<&str>) -> Value {
                 t.emit(boundary_event(id, nn, closed));
                 n += 1;
             }
+        }
+        t.cut();
+    }
+    // "every n >= 1": a few very fine subdivisions around powers of two and ten (only counts and summary flags travel)
+    for (i, big) in [100i32, 255, 256, 1000, 1024, 1025, 4096, 10000].iter().enumerate() {
+        for r in [0, 1, 2, 7, 16, 29] {
+            if tier != "thorough" && (i + r as usize) % 3 != 0 { continue; }
+            let p = random_point(&mut rng);
+            if let Ok(id) = a5::lonlat_to_cell(p, r) { t.emit(boundary_event(id, Some(*big), i % 2 == 0)); n += 1; }
         }
         t.cut();
     }
@@ -815,6 +884,12 @@ pub fn gen_c01(tier: &str, seed: u64, out: &str, mc: Option<&str>) -> Value {
         t.cut();
     }
     n += n_sweep;
+    // parallels on which the latitude stage switches formulas (latitude_flags): lookups across them at the fine resolutions
+    let mut n_latflag = 0u64;
+    for r in [24, 26, 27, 28, 29] {
+        for p in lat_flag_points(&mut rng, r) { t.emit(lookup_event(p, r, "lat_flag")); n += 1; n_latflag += 1; }
+        t.cut();
+    }
     // mass probing guided by the branch hook (see mass_probe): only the HARD lookups are classified and recorded --
     // exactly the cases on which the search's only assumption (A5Lookup: the true cell is among the estimates) is thin
     let (mut hard_all, hist_all, n_mass) = mass_probe(tier, seed);
@@ -829,7 +904,7 @@ pub fn gen_c01(tier: &str, seed: u64, out: &str, mc: Option<&str>) -> Value {
         t.cut();
     }
     t.finish();
-    json!({"files": t.files, "events": t.events, "lookups": n, "lookups_with_step_log": n_steps, "edge_hugging_points": n_hug, "branches_exact_direct_probe_fallback": branches[1..].to_vec(),
+    json!({"files": t.files, "events": t.events, "lookups": n, "lookups_on_flagged_parallels": n_latflag, "lookups_with_step_log": n_steps, "edge_hugging_points": n_hug, "branches_exact_direct_probe_fallback": branches[1..].to_vec(),
            "mass_lookups": n_mass, "mass_hard_cases_found": n_hard_total, "mass_hard_cases_validated": hard_all.len(),
            "mass_winning_probe_histogram_0_26_fallback": hist_all,
            "samples": [lookup_event(LonLat::new(-73.98, 40.75), 11, "sample")]})
